@@ -54,6 +54,64 @@ CLAIMED = {
          "accepted call is compared with the contract but only counted (the property states well-formedness, not effects).",
     technique="TLA+ state machine of the model API model-checked with TLC; every edge replayed into the code; recorded histories validated against the spec",
     design_ref="6/C15"),
+  "C01": dict(
+    level="model_checking",
+    text="spec/Ttml.tla transcribes TTML2 time containment, [associate region] and display pruning into Snapshot(doc, t) over an "
+         "abstract document; spec/Timeline.tla sweeps a time cursor over every document of three exhaustive families (timing "
+         "nesting x boundary arithmetic; region references at every level x region timing x showBackground; display "
+         "specified / animated / initial on content and regions) and TLC checks no-duplicates, document order, active-only "
+         "and that the presentation changes only at change points. Every family document (from TLC's state dump) and "
+         "seeded random documents (<= 40 nodes, depth 7, rational offsets with denominators 1,2,3,25,1001, 0-3 regions, "
+         "display animation, ruby) are built with the model API and snapshotted at every candidate boundary +- 1 tick; "
+         "spec/Trace_Ttml.tla compares each recorded snapshot (regions shown, region order, leaves in order, kept "
+         "containers) with Snapshot(doc, t).",
+    note="Trusted: TLC; the builder abstract document -> model API; the projection (text nodes identified by content t<k>, "
+         "elements by id e<k>). Probe times are chosen by a naive boundary computation (only decides where to look). Ruby "
+         "sub-trees carry no timing of their own in generated documents.",
+    technique="TLA+ transcription of TTML2 region/time semantics model-checked with TLC; exhaustive families replayed into the code; recorded snapshots validated against the spec",
+    design_ref="6/C01"),
+  "C02": dict(
+    level="model_checking",
+    text="On the design, TLC checks in spec/Timeline.tla that Present(doc, t) (snapshot + display values) changes only at "
+         "SpecSigTimes(doc) for every document of the three exhaustive families. The implementation is bound through its own "
+         "observations: for every family document and for seeded random documents decorated with style animation steps "
+         "on elements and regions that begin at non-zero offsets, ISD.significant_times, the snapshots (with a digest of "
+         "all computed styles) at every candidate boundary +- 1 tick and generate_isd_sequence are recorded; "
+         "spec/Trace_Ttml.tla (clause family c02) demands: strictly increasing, nothing visible before the first time, the "
+         "snapshot at every probe equals the snapshot at the greatest significant time not after it, the sequence is "
+         "exactly the snapshots at those times (as renderings).",
+    note="Trusted: TLC, projection digests (md5 of computed style reprs). Minimality of the significant times is not demanded. "
+         "Probe times include both the own-interval and the parent-interval resolution of every animation step.",
+    technique="TLC action property on the TLA+ timeline + trace validation of recorded significant times against observed snapshots",
+    design_ref="6/C02"),
+  "C13": dict(
+    level="model_checking",
+    text="The documented ISD shape (doc/isd.md and the content model) is the TLA+ invariant C13At of spec/Trace_Ttml.tla, "
+         "evaluated by TLC on every node of every recorded snapshot of the exhaustive families and of seeded random "
+         "documents decorated with every style property in every unit on every element kind, initial values, "
+         "cell/pixel resolutions and xml:space variations: no timing, no animation steps, no region references, owner = "
+         "the snapshot, at most one body per region, content model, only applicable styles and all of them, none on "
+         "br/text, all lengths in rh/rw, origin = position, no display:none, no empty text, no childless span, document "
+         "parameters equal the source's, empty regions only with showBackground=always.",
+    note="Trusted: TLC; the projection of each ISD node; the applicability tables in the spec are reviewed constants restating "
+         "ttconv.model (the property anchors them there). The white-space clause is covered only through the no-empty-text / "
+         "childless-span rules (no character-level Lwsp machine yet).",
+    technique="TLA+ shape invariant evaluated by TLC on every recorded snapshot (trace validation)",
+    design_ref="6/C13"),
+  "C14": dict(
+    level="model_checking",
+    text="spec/IsdOps.tla: every history of <= 4 read-only operations (significant_times, from_model uncached and with the "
+         "significant-times object at two times, generate_isd_sequence, SRT / WebVTT / IMSC writers) is enumerated by TLC and "
+         "executed on one real document object per history (documents aimed at the cache short cuts: backgrounds visible "
+         "by style, animation, initial value; plus random ones); spec/Trace_IsdOps.tla replays each history: the deep "
+         "fingerprint of the source is unchanged after every call, a repeated call returns an equal result, a cached "
+         "snapshot renders like the uncached one. Sweeps: random documents observed with and without the cache at every "
+         "candidate boundary +- 1 tick, rendering equality demanded by spec/Trace_Ttml.tla (family c14).",
+    note="Trusted: TLC; fingerprints and result tokens are md5 digests over public getters / output strings; rendering "
+         "equality ignores regions without content that paint nothing (computed background alpha, opacity, visibility, "
+         "showBackground). Calls that raise are counted, not judged (C18).",
+    technique="TLC-enumerated operation histories replayed on real objects + trace validation of cached vs uncached snapshots",
+    design_ref="6/C14"),
 }
 
 NOT_YET = "check not built yet in this round; see DESIGN.md section 6 for the planned TLA+ specification"
